@@ -6,7 +6,14 @@
    through an allocator that fills new blocks with 0xA5 and remembers the requested sizes, so a missing
    initialisation and the size of every section block are observable.
 
-   case <id> <interp|gen|lazy>
+   case <id> <interp|gen|lazy|regen|bb> [<flag>{,<flag>}]
+       flags: preext  - every import name is first registered with MIR_load_external (external-only names twice,
+                        a decoy address first): a later registration / module export of the name must win
+              postext - after the modules are loaded every import name is registered again with another
+                        external address, which must win over the module export
+              reload  - after load+link the bytes of all data/bss/ref/expr items are overwritten (as a running
+                        program would) and the same modules are loaded and linked a second time: every item must be
+                        initialised again (bss to zero)
    import <name> | forward <name> | export <name> | proto <name> | func <name>
    efunc <name> <ty> <decimal bit pattern>      expression function returning that constant
    lfunc <name> <nlab> [<nbase>]                function with labels 0..nlab-1 (`ret 100+j`), entered by jmpi;
@@ -94,7 +101,8 @@ typedef struct {
 } cline_t;
 static cline_t lines[MAX_LINES];
 static int nlines;
-static char ext_area[MAX_LINES][16];
+static char ext_area[MAX_LINES][16], ext_area2[MAX_LINES][16];
+static int preext_p, postext_p, reload_p;
 
 static jmp_buf err_jmp;
 static char err_msg[512];
@@ -258,6 +266,7 @@ static char *target_addr (int t) {
   }
   if (is_kind (t, "import")) { /* the definition in the other module of the case, else the external */
     int d = find_def (lines[t].tok[1]);
+    if (postext_p) return ext_area2[t]; /* the latest registration of the name */
     return d >= 0 && lines[d].mod != lines[t].mod ? (char *) lines[d].item->addr : ext_area[t];
   }
   return lines[t].item->addr;
@@ -333,6 +342,47 @@ static void print_secs (MIR_module_t m) {
   }
 }
 
+static int own_item_size (int i) {
+  cline_t *l = &lines[i];
+  if (is_kind (i, "data")) return atoi (l->tok[3]) * own_type_size (l->tok[2]);
+  if (is_kind (i, "bss")) return atoi (l->tok[2]);
+  if (is_kind (i, "expr"))
+    return is_kind (atoi (l->tok[2]), "afunc") ? 8 : own_type_size (lines[atoi (l->tok[2])].tok[2]);
+  return 8;
+}
+
+static void load_and_link (MIR_context_t ctx, MIR_module_t *mods, int nmods, int b_first_p,
+                           const char *engine, int gen_p, int bb_p) {
+  if (nmods == 2 && b_first_p) MIR_load_module (ctx, mods[1]);
+  MIR_load_module (ctx, mods[0]);
+  if (nmods == 2 && !b_first_p) MIR_load_module (ctx, mods[1]);
+  if (postext_p)
+    for (int i = 0; i < nlines; i++)
+      if (is_kind (i, "import")) MIR_load_external (ctx, lines[i].tok[1], ext_area2[i]);
+  /* every engine walks func->first_lref to its NULL end: a cyclic list would hang MIR_link / the first call */
+  for (int i = 0; i < nlines; i++)
+    if (is_kind (i, "lfunc")) {
+      MIR_lref_data_t slow = lines[i].item->u.func->first_lref, fast = slow;
+      while (fast != NULL && fast->next != NULL) {
+        slow = slow->next;
+        fast = fast->next->next;
+        if (slow == fast) {
+          snprintf (err_msg, sizeof (err_msg), "lref-list-cyclic after MIR_load_module (func %s)", lines[i].tok[1]);
+          longjmp (err_jmp, 1);
+        }
+      }
+    }
+  MIR_link (ctx,
+            !gen_p                          ? MIR_set_interp_interface
+            : strcmp (engine, "lazy") == 0 ? MIR_set_lazy_gen_interface
+            : bb_p                         ? MIR_set_lazy_bb_gen_interface
+                                           : MIR_set_gen_interface,
+            NULL);
+  /* make every lfunc ready for execution (interp and lazy gen prepare on first call) */
+  for (int i = 0; i < nlines; i++)
+    if (is_kind (i, "lfunc") && call_lfunc (lines[i].item, 0) != -1) printf ("lfunc %d wrong result\n", i);
+}
+
 static void run_case (const char *id, const char *engine) {
   MIR_context_t ctx;
   MIR_module_t m, mods[2] = {NULL, NULL};
@@ -371,20 +421,22 @@ static void run_case (const char *id, const char *engine) {
   }
   MIR_finish_module (ctx);
   for (int i = 0; i < nlines; i++)
-    if (is_kind (i, "import") && target_addr_is_external (i)) MIR_load_external (ctx, lines[i].tok[1], ext_area[i]);
-  if (nmods == 2 && b_first_p) MIR_load_module (ctx, mods[1]);
-  MIR_load_module (ctx, mods[0]);
-  if (nmods == 2 && !b_first_p) MIR_load_module (ctx, mods[1]);
+    if (is_kind (i, "import")) {
+      if (target_addr_is_external (i)) {
+        if (preext_p) MIR_load_external (ctx, lines[i].tok[1], ext_area2[i]); /* decoy, replaced next */
+        MIR_load_external (ctx, lines[i].tok[1], ext_area[i]);
+      } else if (preext_p) {
+        MIR_load_external (ctx, lines[i].tok[1], ext_area[i]); /* hidden by the module export later */
+      }
+    }
   if (gen_p) MIR_gen_init (ctx);
-  MIR_link (ctx,
-            !gen_p                          ? MIR_set_interp_interface
-            : strcmp (engine, "lazy") == 0 ? MIR_set_lazy_gen_interface
-            : bb_p                         ? MIR_set_lazy_bb_gen_interface
-                                           : MIR_set_gen_interface,
-            NULL);
-  /* make every lfunc ready for execution (interp and lazy gen prepare on first call) */
-  for (int i = 0; i < nlines; i++)
-    if (is_kind (i, "lfunc") && call_lfunc (lines[i].item, 0) != -1) printf ("lfunc %d wrong result\n", i);
+  load_and_link (ctx, mods, nmods, b_first_p, engine, gen_p, bb_p);
+  if (reload_p) {
+    /* what a running program does to its data, then the same modules once more */
+    for (int i = 0; i < nlines; i++)
+      if (data_kind_p (i) && !is_kind (i, "lref")) memset (lines[i].item->addr, 0x5C, (size_t) own_item_size (i));
+    load_and_link (ctx, mods, nmods, b_first_p, engine, gen_p, bb_p);
+  }
   if (regen_p) {
     call_ctx = ctx;
     interp_after_gen_p = 1;
@@ -497,6 +549,10 @@ int main (void) {
     for (char *s = strtok (buf, " \t\r\n"); s != NULL && n < MAX_TOK; s = strtok (NULL, " \t\r\n")) tok[n++] = s;
     if (n == 0) continue;
     if (strcmp (tok[0], "case") == 0 && n >= 3) {
+      const char *flags = n >= 4 ? tok[3] : "";
+      preext_p = strstr (flags, "preext") != NULL;
+      postext_p = strstr (flags, "postext") != NULL;
+      reload_p = strstr (flags, "reload") != NULL;
       for (int i = 0; i < nlines; i++)
         for (int j = 0; j < lines[i].ntok; j++) free (lines[i].tok[j]);
       nlines = 0;
